@@ -11,7 +11,7 @@ namespace Pyx.Extract
 /-- the containment chain of a packageable element reaches the component `root`:
     PE_PE -> (EP_PKG | C_C) -> its PE_PE -> … -> C_C `root` -/
 inductive Reaches (cs : List Container) (root : Nat) : Parent → Prop where
-  | here : Reaches cs root (.comp root)
+  | here {k : Container} : findContainer cs true root = some k → Reaches cs root (.comp root)
   | pkg {p : Nat} {k : Container} : findContainer cs false p = some k → Reaches cs root k.parent → Reaches cs root (.pkg p)
   | comp {c : Nat} {k : Container} : findContainer cs true c = some k → Reaches cs root k.parent → Reaches cs root (.comp c)
 
@@ -30,12 +30,15 @@ theorem contained_sound (cs : List Container) (root : Nat) : ∀ (f : Nat) (p : 
       | none => simp [hf] at h
       | some k => rw [hf] at h; exact .pkg hf (ih k.parent h)
     | comp c =>
-      simp only [containedFuel, Bool.or_eq_true, beq_iff_eq] at h
-      rcases h with h | h
-      · subst h; exact .here
-      · cases hf : findContainer cs true c with
-        | none => simp [hf] at h
-        | some k => rw [hf] at h; exact .comp hf (ih k.parent h)
+      simp only [containedFuel] at h
+      cases hf : findContainer cs true c with
+      | none => simp [hf] at h
+      | some k =>
+        rw [hf] at h
+        simp only [Bool.or_eq_true, beq_iff_eq] at h
+        rcases h with h | h
+        · subst h; exact .here hf
+        · exact .comp hf (ih k.parent h)
 
 /-- the container rows form a forest whose depth the fuel of `containedIn` covers (no cyclic containment) -/
 structure TreeOk (cs : List Container) : Prop where
@@ -53,11 +56,11 @@ theorem contained_complete_fuel {cs : List Container} {root : Nat} (depth : Pare
     (hdec : ∀ k ∈ cs, depth k.parent < depth (if k.isComp then .comp k.id else .pkg k.id)) {p : Parent}
     (h : Reaches cs root p) : ∀ f, depth p < f → containedFuel cs root f p = true := by
   induction h with
-  | here =>
+  | @here k hk =>
     intro f hf
     cases f with
     | zero => omega
-    | succ f => simp [containedFuel]
+    | succ f => simp [containedFuel, hk]
   | @pkg q k hk _ ih =>
     intro f hf
     cases f with
@@ -95,7 +98,7 @@ theorem contained_iff {cs : List Container} (tree : TreeOk cs) (root : Nat) (p :
 theorem reaches_trans {cs : List Container} {c1 c2 : Nat} (h12 : Reaches cs c2 (.comp c1)) {p : Parent}
     (h : Reaches cs c1 p) : Reaches cs c2 p := by
   induction h with
-  | here => exact h12
+  | here _ => exact h12
   | pkg hk _ ih => exact .pkg hk ih
   | comp hk _ ih => exact .comp hk ih
 
@@ -194,6 +197,7 @@ theorem mkComponent_some {d : ClassDiagram} {comp : Option Nat} {drv : Bool} {s 
     ∀ g ∈ s.groups, ∀ a ∈ g.items,
       (∃ c ∈ s.classes, upper c.kl = upper a.src.kind) ∧
       (∃ c ∈ s.classes, upper c.kl = upper a.tgt.kind) ∧
+      a.src.keys.length = a.tgt.keys.length ∧
       (∃ c ∈ s.classes, upper c.kl = upper a.tgt.kind ∧
         ∀ k ∈ a.tgt.keys, upper k ∈ c.attrs.map (fun x => upper x.name)) := by
   unfold mkComponent at h
@@ -208,8 +212,8 @@ theorem mkComponent_some {d : ClassDiagram} {comp : Option Nat} {drv : Bool} {s 
     have := hd.2 g hg a ha
     unfold assocDefinable endDefinable targetKeysKnown at this
     simp only [Bool.and_eq_true, List.any_eq_true, beq_iff_eq] at this
-    obtain ⟨⟨h1, h2⟩, h3⟩ := this
-    refine ⟨h1, h2, ?_⟩
+    obtain ⟨⟨⟨h1, h2⟩, hlen⟩, h3⟩ := this
+    refine ⟨h1, h2, hlen, ?_⟩
     cases hf : (extract d comp drv).classes.find? (fun c => upper c.kl == upper a.tgt.kind) with
     | none => rw [hf] at h3; cases h3
     | some c =>
@@ -230,7 +234,7 @@ theorem dangling_raises' {d : ClassDiagram} {comp : Option Nat} {drv : Bool} {g 
   | none => rfl
   | some s =>
     obtain ⟨rfl, _, hall⟩ := mkComponent_some h
-    obtain ⟨⟨c1, hc1, he1⟩, ⟨c2, hc2, he2⟩, _⟩ := hall g hg a ha
+    obtain ⟨⟨c1, hc1, he1⟩, ⟨c2, hc2, he2⟩, _, _⟩ := hall g hg a ha
     rcases hno with hno | hno
     · exact absurd he1 (hno c1 hc1)
     · exact absurd he2 (hno c2 hc2)
